@@ -138,6 +138,16 @@ def r10_2(ctx):
     for cn in cons:
         ctx.ob('R10.2', 'apply_async:slot-before-handle', cn.id not in r, fi, cn,
                'when waiting for a slot is requested, acquire() precedes the construction of the handle')
+    # "acquired" means acquired: a blocking acquire, or a non-blocking one whose answer decides whether the job is made
+    for (an, ac) in q.calls(fi, 'self._putlock.acquire'):
+        blocking = not ac.args and not ac.keywords or \
+            (len(ac.args) == 1 and isinstance(ac.args[0], ast.Constant) and ac.args[0].value is True)
+        tested = an.kind == 'test' or all(q.has_guard(fi, cn, lambda t: t.startswith('self._putlock.acquire('), True)
+                                          for cn in cons)
+        ctx.ob('R10.2', 'apply_async:slot-really-taken', blocking or tested, fi, ac,
+               'blocking acquire()' if blocking else 'result of the acquire decides' if tested else
+               '`%s` may return without a slot and nobody looks at the answer: the job is registered and queued '
+               'anyway and later gives back a slot it never held' % ast.unparse(ac))
     defs = [v for (dn, t, v) in q.assigns(fi, 'waitforslot')]
     ok = any(isinstance(v, ast.IfExp) and ast.unparse(v).replace(' ', '') == 'self.putlocksifwaitforslotisNoneelsewaitforslot'
              for v in defs)
